@@ -39,6 +39,7 @@ def drive (st : WrapState) : List String → WrapState × String
     | some op =>
       let (m, out) := B st.mem op
       ({ st with mem := m }, Driver.Mem.showOut out)
+  | ["rofuncs", _] => (st, "skip")   -- ReadOnly over a function table: judged by the oracle
   | "race" :: toks =>
     match Driver.Mem.parseOp toks with
     | some (.pushManifest r t d mt dec) => ({ st with pending := some (.pushManifest r t d mt dec) }, "ok")
